@@ -3,7 +3,7 @@ import TunnoxModel.Spec.C11
 /-!
 Line protocol for C11 (see harness/c11/main.go):
   case: c <cmdType> p <0|1> f <conn#> s <snd> r <rcv> t <tok|-> b <0|1> m <ref> g <int> k <ref> d <ref> [e <v> <keys>] [q <fault plan>]
-        W [br <0|1>] conns <n> (<N|U|A><clientID>[@<node>])* maps <n> (<listen>:<target>:<s|t>:<a|i>)* codes <n> (<target>:<0|1>)* doms <n> (<owner>)*
+        W [br <0|1>] [ne <0|1>] conns <n> (<N|U|A|P|F><clientID>[@<node>])* maps <n> (<listen>:<target>:<s|t>:<a|i>)* codes <n> (<target>:<0|1>)* doms <n> (<owner>)*
   obs:  <run> ~ <run>,  run = ret <0|1> rsp <n|o|f> view <…|-> chg <…|-> dlv <…|-> gone <…|-> [dig <…|->]
         (dig = digests of delivered payloads / stored records; stripped before the comparison with the model)
 The driver runs the `.repaired` variant of the model.
@@ -15,6 +15,9 @@ def parseConnId (k : Char) (s : String) (node : Nat) : Option Conn :=
   match k with
   | 'N' => s.toNat?.map (fun c => ⟨.bare, c, node⟩)
   | 'U' => s.toNat?.map (fun c => ⟨.unauth, c, node⟩)
+  -- phase 1 done for client c (challenge pending) / phase 2 failed for client c: registered, NOT authenticated
+  | 'P' => s.toNat?.map (fun c => ⟨.unauth, c, node⟩)
+  | 'F' => s.toNat?.map (fun c => ⟨.unauth, c, node⟩)
   | 'A' => s.toNat?.map (fun c => if c == 0 then ⟨.unauth, 0, node⟩ else ⟨.auth, c, node⟩)
   | _ => none
 
@@ -27,6 +30,15 @@ def parseConn (s : String) : Option Conn :=
     | [c, n] => n.toNat?.bind (parseConnId k c)
     | _ => none
   | [] => none
+
+/-- Connections are listed in the order they shook hands.  When a client logs in again on the same node, the
+session removes the earlier login's control connection from the registry (`handleHandshake`): at command time that
+earlier connection is an accepted connection without control connection. -/
+def normalizeLogins : List Conn → List Conn
+  | [] => []
+  | c :: rest =>
+    (if c.kind == .auth && rest.any (fun d => d.kind == .auth && d.cid == c.cid && d.node == c.node)
+      then { c with kind := .bare } else c) :: normalizeLogins rest
 
 def parseMap (s : String) : Option Mapping :=
   match s.splitOn ":" with
@@ -69,7 +81,10 @@ def parseCase' : List String → Option Case
     -- the harness must have used exactly the keys the current source yields
     if extra != 0 && keys != keysStr then none
     let bridge := (match rest0 with | "br" :: "1" :: _ => true | _ => false)
-    let rest := (match rest0 with | "br" :: _ :: r => r | r => r)
+    let rest1 := (match rest0 with | "br" :: _ :: r => r | r => r)
+    -- optional `ne <0|1>`: no command executor installed
+    let noExec := (match rest1 with | "ne" :: "1" :: _ => true | _ => false)
+    let rest := (match rest1 with | "ne" :: _ :: r => r | r => r)
     let (conns, rest) ← section_ "conns" parseConn rest
     let (maps, rest) ← section_ "maps" parseMap rest
     let (codes, rest) ← section_ "codes" parseCode rest
@@ -77,7 +92,7 @@ def parseCase' : List String → Option Case
     if !rest.isEmpty then none
     let f ← f.toNat?
     if f ≥ conns.length then none
-    pure ⟨⟨conns, maps, codes, doms, bridge⟩, f,
+    pure ⟨⟨normalizeLogins conns, maps, codes, doms, noExec, bridge⟩, f,
       ⟨← ct.toNat?, p == "1", s, r, t, b == "1", ← m.toInt?, ← g.toInt?, ← k.toInt?, ← d.toInt?, 0, extra, faults⟩⟩
   | _ => none
 
